@@ -249,11 +249,51 @@ def main(n: int):
 ]
 
 
-def judge_case(ctx, m, args, S, rep, cases, key):
+ORDER_PROGRAMS = [
+    # nested groups followed by further members, reversed device functions with run-time operands
+    """
+@move
+def main(n: int, c: bool):
+    f0 = schedule.device_fn(k0, [0, 1], [0])
+    f1 = schedule.device_fn(k1, [0, 1], [0])
+    r0 = schedule.reverse(f0)
+    x = 1.0 * n
+    with schedule.parallel():
+        f0(x, 2.0)
+        with schedule.parallel():
+            f1(x, 0.5, n)
+            r0(2.0, x)
+        f0(3.0, x)
+        with schedule.parallel():
+            r0(x, 0.5)
+        f1(0.5, x, n + 1)
+    gate.global_rz(0.5)
+    if c:
+        r0(x, 1.5)
+    schedule.reverse(f1)(x, 1.0, n)
+    schedule.reverse(r0)(b=x, a=0.25)
+""",
+]
+
+
+def judge_case(ctx, m, args, S, rep, cases, key, native=None):
     gt = tc.GridTable()
     st, calls, err = run_visualizer(m, args, S, gt)
     est, evs, eextra = events.run_events(m, args, S)
     ctx.evaluations += 1
+    if native is not None and native[0] == "ok":
+        # the program's SOURCE evaluated directly (no compiler, no interpreter of the package): what is drawn must be the events the source
+        # prescribes, in its order, with the paths the tracer gives for each call
+        gtn = tc.PosTable()
+        stn, callsn, errn = run_visualizer(m, args, S, gtn)
+        wantn = expected_calls(S, native[1], gtn)
+        ctx.hist("against the source evaluated natively", "same calls" if stn == "ok" and callsn == wantn else "DIFFER")
+        if stn != "ok" or callsn != wantn:
+            k = next((j for j in range(min(len(callsn), len(wantn))) if callsn[j] != wantn[j]), min(len(callsn), len(wantn)))
+            ctx.fail({"kind": "calls-differ-from-source", "symptom": "order/count" if sorted(callsn) == sorted(wantn) or len(callsn) != len(wantn) else "content"},
+                     dict(rep, reference="source evaluated natively"),
+                     f"renderer calls differ from the program's source evaluated directly at call {k}: {(callsn[k] if k < len(callsn) else '<none>')[:120]} vs "
+                     f"{(wantn[k] if k < len(wantn) else '<none>')[:120]}" + (f" ({errn})" if stn != "ok" else ""))
     if est != "ok":
         ctx.hist("outcome", "program raises in the reference executor")
         return
@@ -298,6 +338,8 @@ def run(ctx):
     for i in range(ctx.pick(60, 600)):
         prog = move_prog.gen_move_prog(ctx.rng, autos=False, subs=True)
         src = move_prog.render(prog)
+        nsrc = move_prog.render(prog, native_markers=True)
+        natives = {}
         for with_spec in (False, True):
             try:
                 tw, mv = move_native.split_source(src)
@@ -307,9 +349,24 @@ def run(ctx):
                 ctx.hist("compile", "error")
                 continue
             for args in prog.arg_tuples[:ctx.pick(2, 3)]:
-                judge_case(ctx, m, args, S, {"src": src, "args": repr(args), "compiled_with_spec": with_spec}, cases, (i, args, with_spec))
+                if args not in natives:
+                    natives[args] = move_native.run_native(nsrc, args, S, kernel_ns=kernel_ns)
+                judge_case(ctx, m, args, S, {"src": src, "args": repr(args), "compiled_with_spec": with_spec}, cases, (i, args, with_spec), native=natives[args])
         if i == 0 and cases:
             ctx.sample({"program": src[src.index("@move"):][:600], "renderer_calls": cases[0][1][:500]})
+    for j, fsrc in enumerate(ORDER_PROGRAMS):
+        for with_spec in (False, True):
+            msrc = fsrc if not with_spec else fsrc.rsplit("@move", 1)[0] + "@move(arch_spec=S)" + fsrc.rsplit("@move", 1)[1]
+            try:
+                m = kernels.define(msrc, S=S, **kernel_ns)["main"]
+            except Exception as e:
+                ctx.obligation(f"order program {j} compiles", False, type(e).__name__ + ": " + str(e)[:200])
+                continue
+            for args in ((1, True), (0, False)):
+                nat = move_native.run_native(tw_src + fsrc, args, S, kernel_ns=kernel_ns)
+                if nat[0] != "ok":
+                    ctx.obligation(f"order program {j} runs natively", False, str(nat[-1])[:200])
+                judge_case(ctx, m, args, S, {"src": tw_src + fsrc, "args": repr(args), "compiled_with_spec": with_spec}, cases, ("order", j, args, with_spec), native=nat)
     T = thin_spec()
     for j, (tsrc, targs) in enumerate(THIN_PROGRAMS):
         for with_spec in (False, True):
@@ -363,6 +420,11 @@ def replay(data):
     msrc = mv if not inp.get("compiled_with_spec") else mv.rsplit("@move", 1)[0] + "@move(arch_spec=S)" + mv.rsplit("@move", 1)[1]
     m = kernels.define(msrc, S=S, **kernel_ns)["main"]
     args = eval(inp["args"])
+    if inp.get("reference") == "source evaluated natively":
+        nat = move_native.run_native(inp["src"], args, S, kernel_ns=kernel_ns)
+        gtn = tc.PosTable()
+        stn, callsn, errn = run_visualizer(m, args, S, gtn)
+        return nat[0] == "ok" and (stn != "ok" or callsn != expected_calls(S, nat[1], gtn)), f"{len(callsn)} calls ({stn}) against the source's {len(nat[1])} events"
     gt = tc.GridTable()
     mini = inp.get("renderer") == "minimal"
     st, calls, err = run_visualizer(m, args, S, gt, minimal=mini)
